@@ -349,8 +349,8 @@ func run(t *testing.T, tape *simrt.Tape) *hx.Outcome {
 			layers = append(layers, layerIn{blob: b, notes: notes, kind: "hand-written"})
 			continue
 		}
-		cs := []int{8, 17, 64}[d(3)]
-		spec := common.GenTar(d, tape.Seed+uint64(i)*977, common.GenOpts{ChunkSize: cs, MaxEntries: 10})
+		cs := []int{8, 17, 64, 50, 100}[d(5)]
+		spec := common.GenTar(d, tape.Seed+uint64(i)*977, common.GenOpts{ChunkSize: cs, MaxEntries: 10, OddNames: d(2) == 0, BigFiles: d(2) == 0})
 		bc := common.BuildCfg{ChunkSize: cs, Compression: d(2), Workers: 1 + d(2)}
 		if d(3) == 0 {
 			bc.MinChunkSize = 3 * cs
